@@ -30,12 +30,14 @@ def dag1():
         ("port", "q", 2, "none"), ("binst", "bb", "B1"),
         ("inst", "m", ("mod", "M"), [("p", sig("q")), ("bq", b("bb"))]),
         ("inst", "l", ("mod", "L"), [("a", bref("bb", "x")), ("b", cat(idx(sig("q"), 1), idx(sig("q"), 0)))]),
+        # the same value as B's `ps` parameter, a float here and a prefixed number there (equal and hash-equal in Python)
+        ("inst", "pa", ("ext", "P1", {"k": 6.0}), [("a", bref("bb", "x"))]),
     ]}
     B = {"name": "B", "style": "proc", "decls": [
         ("port", "q", 2, "none"), ("sig", "s", 1),
         ("inst", "m0", ("mod", "M"), [("p", sig("q")), ("bq", anon(x=sig("s"), y=sig("q")))]),
         ("inst", "m1", ("mod", "M"), [("p", pref("m0", "p")), ("bq", pref("m0", "bq"))]),
-        ("inst", "ps", ("ext", "P1", {"k": 6}), [("a", sig("s"))]),
+        ("inst", "ps", ("ext", "P1", {"k": ("pre", "6", 0)}), [("a", sig("s"))]),
     ]}
     T = {"name": "T", "style": "class", "decls": [
         ("sig", "v", 2), ("sig", "u", 2), ("port", "tp", 1, "none"),
